@@ -142,6 +142,31 @@ class C15(Prop):
                 m = G.op_match_doc("json", 0, t, json.dumps(doc).encode(), "string", ms)
                 m["exp"] = json.dumps(exp)
                 ops.append(m)
+            if r.chance(1, 4):
+                # gjson paths that address SEVERAL values (`arr.#.key`) or one value through a query (`arr.#(k=="v").key`): outside
+                # the matcher model (the model abstains), judged by the oracle alone - every addressed value is replaced, the
+                # document stays valid JSON and everything else keeps its value and position
+                t = r.choice(G.TEST_NAMES)
+                users = [{"id": i + 1, "name": nm} for i, nm in enumerate(r.shuffle(["ann", "bob", "cy"])[: r.range(2, 3)])]
+                doc = {"users": users, "total": len(users), "tail": [1, 2]}
+                k4 = r.below(4)
+                if k4 == 0:
+                    ms = [{"kind": "any", "paths": ["users.#.id"]}]
+                    exp = dict(doc, users=[dict(u, id="<Any value>") for u in users])
+                elif k4 == 1:
+                    ms = [{"kind": "type", "type": "slice", "paths": ["users.#.id"]}]
+                    exp = dict(doc, users=[dict(u, id="<Type:[]interface {}>") for u in users])
+                elif k4 == 2:
+                    who = r.choice(users)["name"]
+                    ms = [{"kind": "any", "paths": ['users.#(name=="%s").id' % who]}]
+                    exp = dict(doc, users=[dict(u, id="<Any value>") if u["name"] == who else u for u in users])
+                else:
+                    who = r.choice(users)["name"]
+                    ms = [{"kind": "type", "type": "float64", "paths": ['users.#(name=="%s").id' % who]}, {"kind": "any", "paths": ["total"]}]
+                    exp = dict(doc, users=[dict(u, id="<Type:float64>") if u["name"] == who else u for u in users], total="<Any value>")
+                m = G.op_match_doc(r.choice(["json", "standjson"]), 0, t, json.dumps(doc).encode(), r.choice(["string", "bytes"]), ms)
+                m["exp"] = json.dumps(exp)
+                ops.append(m)
             if r.chance(1, 3):
                 # YAML: container placeholders at paths of different depth, deeper first
                 doc = b"top:\n  mid:\n    deep:\n      value: 1\n    other: keep\n  side: 2\nlist:\n  - a\n  - id: b\nlast: z\n"
